@@ -13,6 +13,7 @@ def run(tier):
         cfgs = vfsrun.cfgs([1, 5], [-1, 0, 1, 2, 3, 4], range(8)) + vfsrun.cfgs([5], [2, 3], range(8), shapes=(1, 2)) + vfsrun.cfgs([0], [2, 3], [1, 2, 3, 7])
         depth = 5
         longs, writes = vfsrun.cfgs([1], [0, 2, 3, 5, 12], [0, 2, 4], ticks=(0, 1)) + vfsrun.cfgs([1], [3], [0, 4], shapes=(1, 2)), (12, 102)
+    deep = (vfsrun.cfgs([5], [2, 3], [0, 2, 3, 4, 7]) + vfsrun.cfgs([1], [3], [0, 2]), 6) if tier == 'quick' else (cfgs, 7)
     return vfsrun.hist_check(
         PROP, tier, cfgs, depth,
         rule="every operation history up to the depth bound for file-count limits N in {<=0, 1, 2, 3, ..} with all file timestamps tied (virtual clock does not advance "
@@ -20,7 +21,7 @@ def run(tier):
              "files in the directory (dated 2000-01-01, i.e. 'oldest'); after every operation: active+rotated <= N, the surviving rotated files are the most recent ones "
              "(contiguous stretch), nothing disappears for N<=0, nothing rotates for N=1, foreign files byte-identical; every unlink is checked at the system call "
              "(scheme name, more than N-1 rotated files present, no older rotated file left)",
-        assumptions=vfsrun.COMMON_ASSUMPTIONS,
+        deep=deep, assumptions=vfsrun.COMMON_ASSUMPTIONS,
         long_cfgs=longs, long_writes=writes)
 
 
